@@ -350,9 +350,9 @@ def run_property(prop, tier, jobs, only, seed, timeout_override=0):
     cfg = P.PROPS[prop]
     known = load_known()
     lim = P.TIERS[tier]
-    jobs = jobs or lim["jobs"]
+    jobs = jobs or cfg.get("jobs", {}).get(tier, lim["jobs"])
     per_h_timeout = timeout_override or cfg.get("timeout_s", {}).get(tier, lim["harness_timeout_s"])
-    mem_gb = lim["mem_gb"]
+    mem_gb = cfg.get("mem_gb", {}).get(tier, lim["mem_gb"])
     timings = load_timings()
     units, gen_info = [], {}
     for unit in cfg["units"]:
